@@ -34,6 +34,27 @@ pub fn numberings(f: &P) -> Vec<P> {
     out
 }
 
+/// the same diagram with `nl` node labels and `el` hyperedge labels spread over its nodes and hyperedges
+/// (node v gets (3v + 1) mod nl, hyperedge e gets (5e + 2) mod el): many distinct labels in one diagram
+pub fn relabelled(f: &P, nl: usize, el: usize) -> P {
+    let mut g = f.clone();
+    for (v, w) in g.nodes.iter_mut().enumerate() {
+        *w = ((3 * v + 1) % nl) as u8;
+    }
+    for (e, ed) in g.edges.iter_mut().enumerate() {
+        ed.label = ((5 * e + 2) % el) as u8;
+    }
+    g
+}
+
+/// `shapes_at` followed by the relabelled copy of every member (5 node labels, 4 hyperedge labels)
+pub fn shapes_at_labelled(ks: &[usize], gaps: bool) -> Vec<(String, P)> {
+    let base = shapes_at(ks, gaps);
+    let mut out = base.clone();
+    out.extend(base.into_iter().map(|(n, f)| (format!("{}/labelled", n), relabelled(&f, 5, 4))));
+    out
+}
+
 /// shapes with arbitrary arities (label 0 everywhere): for layering, predicates, morphisms
 pub fn shapes(kmax: usize) -> Vec<(String, P)> {
     let ks: Vec<usize> = (1..=kmax).collect();
